@@ -10,7 +10,7 @@ PROP = {'areas': [{'area': 'engine',
                        'corpus/engine/d9_connack_before_connect_flushed.script'],
             'extra': ['100'],
             'only_prop': 'C09',
-            'quick': 4000,
+            'quick': 12000,
             'thorough': 2000000,
             'tie_fields': ['ppub', 'pnon', 'ss', 'out', 'uq', 'rq', 'cur', 'ops']}],
  'coq_target': 'Properties/C09.vo',
